@@ -38,6 +38,9 @@ type c19Case struct {
 	Probe bool  `json:"probe_keys"` // run the signing / decryption cross-checks
 	// Custom: field key stores are of a custom type (not dsig.TLSCertKeyStore)
 	Custom bool `json:"custom_key_store,omitempty"`
+	// EncKey: the key in the encryption slot(s) instead of the usual RSA-2048 ones: "KM"
+	// (RSA-3072) or "KL" (RSA-4096)
+	EncKey string `json:"encryption_key,omitempty"`
 }
 
 func c19Keys() []c13Keys {
@@ -64,11 +67,15 @@ func c19SP(c c19Case) (*saml2.SAMLServiceProvider, c13Keys, []string) {
 	sp.SkipSignatureValidation = c.Skip
 	sp.Clock = world.Clock(c15Clocks[c.Clock].T)
 	sp.SPKeyStore = nil
+	encField, encSetter := c13SlotKey["enc-field"], c13SlotKey["enc-setter"]
+	if c.EncKey != "" {
+		encField, encSetter = c.EncKey, c.EncKey
+	}
 	if k.EncField {
-		sp.SPKeyStore = world.FieldKeyStore(c13SlotKey["enc-field"], c.Custom)
+		sp.SPKeyStore = world.FieldKeyStore(encField, c.Custom)
 	}
 	if k.EncSetter {
-		sp.SetSPKeyStore(world.SetterKeyStore(c13SlotKey["enc-setter"]))
+		sp.SetSPKeyStore(world.SetterKeyStore(encSetter))
 	}
 	if k.SigField {
 		sp.SPSigningKeyStore = world.FieldKeyStore(c13SlotKey["sig-field"], c.Custom)
@@ -207,11 +214,18 @@ func c19ExecPass(c c19Case, afterScribble bool) (keys []string, detail, class st
 			bad("key-descriptor-with-unknown-use", "use=%q", kd.Use)
 		}
 	}
-	expSign := base64.StdEncoding.EncodeToString(world.Cert(k.expectedSigner()).Raw)
+	signKey := k.expectedSigner()
 	encKey := c13SlotKey["enc-field"]
 	if k.EncSetter {
 		encKey = c13SlotKey["enc-setter"]
 	}
+	if c.EncKey != "" {
+		encKey = c.EncKey
+		if !k.SigField && !k.SigSetter {
+			signKey = c.EncKey // no signing key of its own: the encryption key signs
+		}
+	}
+	expSign := base64.StdEncoding.EncodeToString(world.Cert(signKey).Raw)
 	expEnc := base64.StdEncoding.EncodeToString(world.Cert(encKey).Raw)
 	if len(signing) != 1 || signing[0] != expSign {
 		bad("signing-key-published-is-not-the-configured-one/keys="+k.String(), "%d signing certificates", len(signing))
@@ -256,7 +270,7 @@ func c19ExecPass(c c19Case, afterScribble bool) (keys []string, detail, class st
 			}
 			// find which harness key the published certificate belongs to
 			toKey := ""
-			for _, kn := range []string{"KS", "KX", "KG", "K1"} {
+			for _, kn := range []string{"KS", "KX", "KG", "K1", "KM", "KL"} {
 				if base64.StdEncoding.EncodeToString(world.Cert(kn).Raw) == encryption[0] {
 					toKey = kn
 				}
@@ -268,7 +282,7 @@ func c19ExecPass(c c19Case, afterScribble bool) (keys []string, detail, class st
 			uniq(&r, "c19")
 			r.Assertions[0].Sign = idp.SignSpec{Key: "K1"}
 			r.Assertions[0].Encrypt = &idp.EncSpec{DataAlg: m, ToKey: toKey}
-			sp3, _, _ := c19SP(c19Case{Keys: c.Keys, Str: make([]int, 3)})
+			sp3, _, _ := c19SP(c19Case{Keys: c.Keys, Str: make([]int, 3), EncKey: c.EncKey, Custom: c.Custom})
 			sp3.IDPCertificateStore = world.Store("K1")
 			resp, cr := validateResponse(sp3, idp.RenderResponse(r))
 			if !cr.Accepted() || len(resp.Assertions) != 1 {
@@ -376,7 +390,7 @@ func c19Replay(raw json.RawMessage) ([]string, string) {
 }
 
 func c19Run(r *mc.Run) {
-	r.Rule = "full product key configuration(12 with an encryption key) x SignAuthnRequests x SkipSignatureValidation x {Metadata, MetadataWithSLO(h) for h in -5,0,1,24,168,8760,10^6} x clock(5), with signing/decryption cross-checks (a signed AuthnRequest of the same SP verifies with the published signing certificate; an assertion encrypted to the published encryption certificate under each listed method is decrypted by the same SP) on the key-configuration dimension (field key stores as dsig.TLSCertKeyStore and as a key store of a custom type), plus <=1 (quick) / <=2 (thorough) special strings among issuer / ACS URL / SLO URL; each case judged on a fresh instance and again after a caller wrote over every field, slice element and map entry of earlier results; XML marshal is parsed by encoding/xml and must unmarshal back to equal values. non-trivial = metadata was produced and compared; distinct = distinct case"
+	r.Rule = "full product key configuration(12 with an encryption key) x SignAuthnRequests x SkipSignatureValidation x {Metadata, MetadataWithSLO(h) for h in -5,0,1,24,168,8760,10^6} x clock(5), with signing/decryption cross-checks (a signed AuthnRequest of the same SP verifies with the published signing certificate; an assertion encrypted to the published encryption certificate under each listed method is decrypted by the same SP) on the key-configuration dimension (field key stores as dsig.TLSCertKeyStore and as a key store of a custom type; SP encryption keys of RSA-2048, and per key configuration RSA-3072 and RSA-4096), plus <=1 (quick) / <=2 (thorough) special strings among issuer / ACS URL / SLO URL; each case judged on a fresh instance and again after a caller wrote over every field, slice element and map entry of earlier results; XML marshal is parsed by encoding/xml and must unmarshal back to equal values. non-trivial = metadata was produced and compared; distinct = distinct case"
 	var cases []c19Case
 	nk := len(c19Keys())
 	mc.Enumerate(-1, r.Expired, func(ch *mc.Chooser) {
@@ -396,6 +410,14 @@ func c19Run(r *mc.Run) {
 			cases = append(cases, c)
 		}
 	})
+	// larger SP encryption keys (the transported key grows with the modulus)
+	for ki := 0; ki < nk; ki++ {
+		for _, ek := range []string{"KM", "KL"} {
+			for _, slo := range []bool{false, true} {
+				cases = append(cases, c19Case{Str: make([]int, 3), Keys: ki, SLO: slo, Probe: true, EncKey: ek})
+			}
+		}
+	}
 	bound := 1
 	if r.Thorough() {
 		bound = 2
